@@ -14,6 +14,7 @@
  *                                   csp=<csp index after> sp=<sp index after> cost=<budget> depth=<MaxCallDepth> stack=<n>
  *   lpc <path> <hex>          write generated LPC source to <mudlib>/<path>
  *   shape <term>              ignored (the abstract shape of the generated program, read by the model)
+ *   reconf <Key> <value>      re-read the config file through init_config() with that key replaced
  *   mset <fn> <int>           master()-><fn>(<int>): switches of the C04 verification master
  *   sz <constructor> <args...> size decision of one value constructor, evaluated by the real driver through the LPC
  *                             object /c04/sizes (see props/c04.py for the argument conventions); prints
@@ -23,6 +24,7 @@
  * (`verif hook: instruction counter`).
  */
 #include "vh.h"
+#include <unistd.h>
 #include "src/interpret.h"
 
 #ifdef NEOLITH_VERIF
@@ -35,6 +37,7 @@ static long verif_max_csp, verif_max_sp;
 #endif
 
 static int c04_stack = 0;
+static const char *c04_conf = 0, *c04_scratch = "/tmp";
 static int c04_hc = 0;	/* the master's error handler completes a catch: error_state at the driver level is not compared */
 
 static int c04_ev (int n, char **tok, int quiet)
@@ -91,9 +94,7 @@ static int c04_ev (int n, char **tok, int quiet)
   free_string (shared);
   if (quiet)
     return 1;
-  if (rc == 1 && c04_hc)
-    vh_out ("r err");
-  else if (rc == 1)
+  if (rc == 1)
     vh_out ("r err es=%d", es);
   else if (rc == 2)
     vh_out ("r nofn");
@@ -167,6 +168,31 @@ static int c04_cmd (char *line)
         CONFIG_INT (__MAX_CALL_DEPTH__) = v;
       else
         vh_out ("badcmd %s", line);
+      return 1;
+    }
+  if (!strcmp (tok[0], "reconf") && n == 3)
+    {
+      /* reconf <Key> <value>: re-read the config file with `<Key> <value>` replacing that key - the value goes
+       * through the real init_config() of lib/rc/rc.cpp (cfgint pokes config_int[] directly) */
+      char path[600], *l = 0;
+      size_t cap = 0;
+      FILE *in = fopen (c04_conf, "r"), *out;
+      snprintf (path, sizeof path, "%s/reconf-%d.conf", c04_scratch, (int) getpid ());
+      out = fopen (path, "w");
+      if (!in || !out)
+        {
+          vh_out ("badcmd reconf");
+          return 1;
+        }
+      while (getline (&l, &cap, in) >= 0)
+        if (strncmp (l, tok[1], strlen (tok[1])) || !strchr (" \t", l[strlen (tok[1])]))
+          fputs (l, out);
+      fprintf (out, "%s %s\n", tok[1], tok[2]);
+      free (l);
+      fclose (in);
+      fclose (out);
+      init_config (path);
+      unlink (path);
       return 1;
     }
   if (!strcmp (tok[0], "mset") && n == 3)
@@ -259,5 +285,12 @@ static int c04_cmd (char *line)
 
 int main (int argc, char **argv)
 {
+  for (int i = 1; i + 1 < argc; i++)
+    {
+      if (!strcmp (argv[i], "--conf"))
+        c04_conf = argv[i + 1];
+      else if (!strcmp (argv[i], "--scratch"))
+        c04_scratch = argv[i + 1];
+    }
   return vh_main (argc, argv, c04_cmd);
 }
